@@ -583,6 +583,71 @@ def _(E, p):
     return out
 
 
+@entry("edge_inputs", 3.0)
+def _(E, p):
+    """Caller data that sits on the edge of what the library accepts or special-cases: points a rounding error outside
+    the stated domain (accepted within 1e-7), radial nodes below the 1e-8 'this is the nucleus' threshold, angles exactly
+    on the poles, points exactly on the expansion centre, end points of a strip/finite rule.  Input that is accepted
+    'with tolerance' is still the caller's and must not be tidied up in place."""
+    from grid import utils as u
+    from grid.atomgrid import AtomGrid
+    from grid.basegrid import Grid, OneDGrid
+
+    v = p % 8
+    out = []
+    if v in (0, 1, 2):
+        # 0.1*arange(4)[-1] = 0.30000000000000004 > 0.3 ; the same array also backs an earlier, domain-less grid
+        if v == 0:
+            pts, dom = 0.1 * np.arange(4), (0.0, 0.3)
+        elif v == 1:
+            pts, dom = np.array([-1.0000000000000002, -0.5, 0.0, 0.5, 1.0]), (-1.0, 1.0)
+        else:
+            pts, dom = np.array([-1.0 - 5e-8, -0.3, 0.4, 1.0 + 9e-8]), (-1, 1)
+        P = E.arr("points", pts)
+        W = E.arr("weights", np.full(len(pts), 0.25))
+        earlier = Grid(P, W)
+        g = OneDGrid(P, W, E.tup("domain", dom))
+        out += [g, earlier, g.integrate(E.arr("f", np.cos(pts))), g[1:3]]
+    elif v == 3:
+        # a radial node below the 1e-8 threshold, and one exactly 0
+        rg = OneDGrid(E.arr("rpoints", np.array([0.0, 5e-9, 0.3, 0.9, 1.7])), E.arr("rweights", np.array([0.05, 0.1, 0.3, 0.5, 0.6])), (0, np.inf))
+        ag = AtomGrid(rg, degrees=E.lst("degrees", [3, 3, 5, 5, 3]), center=E.arr("center", np.array([0.0, 0.1, 0.0])))
+        vals = E.arr("vals", _gauss(ag.points, (0, 0.1, 0.0), 0.9))
+        f = ag.interpolate(vals)
+        q = E.arr("q", np.array([[0.0, 0.1, 0.0], [0.2, 0.1, 0.3], [0.0, 0.1, 1e-9]]))
+        out += [ag, ag.spherical_average(vals)(E.arr("rq", np.array([0.0, 5e-9, 0.5]))), f(q), f(q, deriv=1), ag.integrate(vals)]
+    elif v == 4:
+        # angles exactly on the poles / the seam
+        theta = E.arr("theta", np.array([0.0, np.pi, 2 * np.pi, 0.0, 1.0]))
+        phi = E.arr("phi", np.array([0.0, np.pi, 0.0, np.pi / 2, 1e-12]))
+        out += [u.generate_real_spherical_harmonics(2, theta, phi), u.generate_derivative_real_spherical_harmonics(2, theta, phi)]
+    elif v == 5:
+        # points exactly on the centre and on the z axis
+        pts = E.arr("points", np.array([[0.1, 0.2, 0.3], [0.1, 0.2, 1.3], [0.1, 0.2, -0.7], [1.1, 0.2, 0.3], [0.1, 0.2, 0.3 + 1e-11]]))
+        c = E.arr("center", np.array([0.1, 0.2, 0.3]))
+        sph = u.convert_cart_to_sph(pts, c)
+        out += [sph, u.solid_harmonics(2, E.arr("sph_pts", np.array(sph)))]
+        out.append(u.convert_derivative_from_spherical_to_cartesian(0.3, 0.2, 0.1, 0.0, 0.0, 0.0))
+        out.append(u.convert_derivative_from_spherical_to_cartesian(0.3, 0.2, 0.1, 1.0, 0.4, 0.0))
+    elif v == 6:
+        # a parent grid with coincident and boundary-distance points handed to get_localgrid
+        pts = E.arr("points", np.array([[0.0, 0.0, 0.0], [0.0, 0.0, 0.0], [1.0, 0.0, 0.0], [0.0, 1.0, 0.0], [0.0, 0.0, 1.0 + 1e-12]]))
+        g = Grid(pts, E.arr("weights", np.array([0.1, 0.2, 0.3, 0.4, 0.5])))
+        lg = g.get_localgrid(E.arr("center", np.zeros(3)), 1.0)
+        out += [lg, lg.indices, g.get_localgrid(E.arr("center2", np.array([1.0, 0.0, 0.0])), 0.0)]
+    else:
+        # transforms evaluated exactly on the ends of their domain
+        from grid import rtransform as rt
+
+        x = E.arr("x", np.array([-1.0, -1.0 + 1e-12, 0.0, 1.0 - 1e-12]))
+        for tf in (rt.BeckeRTransform(0.0, 1.2), rt.KnowlesRTransform(0.0, 1.3, 2), rt.LinearFiniteRTransform(0.0, 5.0)):
+            r = tf.transform(x)
+            out += [r, tf.deriv(x), tf.inverse(E.arr("r_" + type(tf).__name__, r))]
+        og = OneDGrid(E.arr("og_points", np.array([-1.0, -0.2, 0.5, 1.0 - 1e-9])), E.arr("og_weights", np.full(4, 0.5)), (-1.0, 1.0))
+        out.append(rt.LinearFiniteRTransform(0.0, 3.0).transform_1d_grid(og))
+    return out
+
+
 @entry("dipole", 1.0)
 def _(E, p):
     from grid.atomgrid import AtomGrid
